@@ -37,9 +37,11 @@ pub static MERGE_CALLS: AtomicUsize = AtomicUsize::new(0);
 pub static TC_CALLS: AtomicUsize = AtomicUsize::new(0);
 pub static DOMAIN_CALLS: AtomicUsize = AtomicUsize::new(0);
 pub static NEXTVAR_CALLS: AtomicUsize = AtomicUsize::new(0);
+/// merges whose result equals a state already present in the layer and kept (ddo then recycles that node)
+pub static RECYCLED_MERGES: AtomicUsize = AtomicUsize::new(0);
 
 pub fn reset_counters() {
-    for c in [&MAX_EXPANSIONS_SEEN, &LAYERS_AT_WIDTH, &LAYERS_CHECKED, &RELAX_CALLS, &MERGE_CALLS, &TC_CALLS, &DOMAIN_CALLS, &NEXTVAR_CALLS] { c.store(0, Ordering::Relaxed); }
+    for c in [&MAX_EXPANSIONS_SEEN, &LAYERS_AT_WIDTH, &LAYERS_CHECKED, &RELAX_CALLS, &MERGE_CALLS, &TC_CALLS, &DOMAIN_CALLS, &NEXTVAR_CALLS, &RECYCLED_MERGES] { c.store(0, Ordering::Relaxed); }
     MON.with(|m| *m.borrow_mut() = ThreadMon::default());
 }
 
@@ -153,6 +155,7 @@ impl<'a, P: Problem, R: Relaxation<State = P::State>> Relaxation for MonRelax<'a
         let merged = self.inner.merge(&mut inputs.iter());
         if crate::sched::trace_on() { eprintln!("[mon] merge {:?} -> {:?}", inputs, merged); }
         MON.with(|m| m.borrow_mut().merged_since_next_variable = true);
+        if !inputs.contains(&merged) && LAYER_STATES.with(|l| l.borrow().iter().any(|b| b.downcast_ref::<P::State>().map_or(false, |s| *s == merged))) { RECYCLED_MERGES.fetch_add(1, Ordering::Relaxed); }
         LAST_MERGE.with(|lm| *lm.borrow_mut() = Some(Box::new(MergeRec { inputs, merged: merged.clone() })));
         merged
     }
